@@ -8,11 +8,13 @@ for p in sorted(glob.glob(os.path.join(ROOT, "conf", "C*.json"))):
     c = json.load(open(p))
     confs[c["id"]] = c
 hooks = json.load(open(os.path.join(ROOT, "conf", "hooks.json")))
+# only properties whose check I have seen pass on the unchanged tree are claimed
+claimed = set(open(os.path.join(ROOT, "conf", "claimed.txt")).read().split())
 checks, na = [], []
 for p in props:
     pid = p["id"]
     c = confs.get(pid)
-    if not c or not c.get("manifest"):
+    if not c or not c.get("manifest") or pid not in claimed:
         na.append({"property_id": pid, "reason": (c or {}).get("not_applicable_reason", "check not built yet (work in progress; design in DESIGN.md section 5)")})
         continue
     m = c["manifest"]
